@@ -37,6 +37,11 @@ def run_one(name, checks):
         meta.setdefault("checks", {})["apply"] = "patch does not apply to the current /repo: " + p.stderr[:200]
         json.dump(meta, open(meta_p, "w"), indent=1, sort_keys=True)
         return 2
+    saved = {}
+    for c in checks:
+        ep = os.path.join(VERIF, "evidence", c + ".json")
+        if os.path.exists(ep):
+            saved[ep] = open(ep).read()
     try:
         for c in checks:
             t0 = time.time()
@@ -51,6 +56,9 @@ def run_one(name, checks):
             print("%s vs %s: %s %s" % (name, c, verdict, kind))
     finally:
         sh(["git", "-C", REPO, "checkout", "--", "."])
+        # evidence written while the patch was applied describes the seeded tree: put the unchanged tree's record back
+        for ep, txt in saved.items():
+            open(ep, "w").write(txt)
         # replays written while the patch was applied describe the seeded tree, not /repo: drop them
         for f in os.listdir(os.path.join(VERIF, "replays")) if os.path.isdir(os.path.join(VERIF, "replays")) else []:
             pth = os.path.join(VERIF, "replays", f)
